@@ -170,7 +170,7 @@ pub fn c11() -> C11 {
         engine: EngineProp {
             id: "C11",
             oracles: Oracles { silence: true, converge: true, ..Default::default() },
-            profiles: vec![(Profile::Lossy, 12000, 400_000), (Profile::Related, 8000, 250_000), (Profile::Tracked, 5000, 150_000), (Profile::Vis, 4000, 100_000)],
+            profiles: vec![(Profile::Lossy, 12000, 400_000), (Profile::Related, 8000, 250_000), (Profile::Tracked, 5000, 150_000), (Profile::Vis, 4000, 100_000), (Profile::Split, 16000, 500_000)],
             nontrivial: |s: &Sim| s.flags.contains("mut_dropped") || s.flags.contains("ack_delayed") || s.flags.contains("junk_ack"),
             rule: "",
             assumptions: vec![],
